@@ -152,6 +152,7 @@ def run_check(chk, argv=None):
     harness_errors = list(errors)
     os.makedirs(os.path.join(VERIF, "replays", pid), exist_ok=True)
     replayed = 0
+    soft_unreproduced = []
     seen_keys = set()
     for cex in total.cex:
         key = (cex["obligation"], cex.get("finding"), json.dumps(cex["inputs"], sort_keys=True, default=str))
@@ -168,6 +169,7 @@ def run_check(chk, argv=None):
         fid = cex.get("finding")
         if not obs:
             if cex.get("soft"):
+                soft_unreproduced.append(cex)
                 continue
             harness_errors.append((cex.get("case"),
                                    "counterexample did not reproduce on the real code: %s" % json.dumps(cex, default=str)[:1500]))
@@ -197,8 +199,13 @@ def run_check(chk, argv=None):
         print("  obligation=%s inputs=%s observed=%s" % (cex["obligation"], json.dumps(cex["inputs"], sort_keys=True, default=str)[:400],
                                                           json.dumps(cex.get("observed"), default=str)[:600]))
     inconclusive = total.ob_unknown
-    if inconclusive or total.truncated:
-        print("INCONCLUSIVE property=%s unknown_obligations=%d truncated_paths=%d" % (pid, inconclusive, total.truncated))
+    if inconclusive or total.truncated or soft_unreproduced:
+        print("INCONCLUSIVE property=%s unknown_obligations=%d truncated_paths=%d model_side_conditions_not_reproduced=%d" % (
+            pid, inconclusive, total.truncated, len(soft_unreproduced)))
+        for cex in soft_unreproduced[:3]:
+            print("  side-condition %s inputs=%s" % (cex["obligation"], json.dumps(cex["inputs"], default=str)[:300]))
+    total.notes.extend("side-condition not reproduced: %s %s" % (c["obligation"], json.dumps(c["inputs"], default=str)[:200])
+                       for c in soft_unreproduced[:5])
     for case, msg in harness_errors[:10]:
         print("HARNESS-ERROR property=%s case=%s\n%s" % (pid, case, msg))
     if missing:
@@ -301,6 +308,13 @@ def concrete(x):
         return Fraction(v.numerator_as_long(), v.denominator_as_long())
     if isinstance(x, SymInt):
         v = z3.simplify(x.t)
+        if not z3.is_int_value(v) and engine.have_run():
+            r, m = engine.cur().check_sat([])      # pinned run: the value is determined by the path condition
+            assert r == "sat"
+            k = engine.model_value(m, x.t)
+            r2, _m2 = engine.cur().check_sat([x.t != k])
+            assert r2 == "unsat", "pinned value is not unique"
+            return k
         assert z3.is_int_value(v), "not constant: %s" % v
         return v.as_long()
     if isinstance(x, SymQ):
@@ -314,3 +328,22 @@ def concrete(x):
     if isinstance(x, float):
         return Fraction(x)
     return x
+
+
+def test_rows(test_file, funcname, length=None):
+    """Literal list rows found inside a test function of the repository's own test-suite (used as
+    translator-validation inputs)."""
+    import ast
+    from . import loader
+    src = loader.read_source(os.path.join(loader.REPO, "test", test_file))
+    rows = []
+    for node in ast.walk(ast.parse(src)):
+        if isinstance(node, ast.FunctionDef) and node.name == funcname:
+            for sub in ast.walk(node):
+                if isinstance(sub, (ast.List, ast.Tuple)) and (length is None or len(sub.elts) == length):
+                    try:
+                        v = ast.literal_eval(sub)
+                    except Exception:
+                        continue
+                    rows.append(v)
+    return rows
